@@ -98,6 +98,7 @@ def check(seed, n):
     rng = random.Random(seed)
     violations = []
     evals = 0
+    seen = set()
     root = tempfile.mkdtemp(prefix="hera_verif_inc_")
     try:
         for k in range(n):
@@ -124,6 +125,7 @@ def check(seed, n):
                     exc = type(e).__name__ + ": " + str(e)[:100]
                 cap.take()
             evals += 1
+            seen.add(repr(sorted(case["files"].items())))
             if exc:
                 violations.append({"property": "C16", "stream": "includes", "sig": "include:exception", "case": case,
                                    "what": "parsing an include graph raised " + exc})
@@ -156,4 +158,4 @@ def check(seed, n):
                                        "what": "a fault in included file {} line {} is reported at {}".format(files[fault[0]]["name"], fl[0], locs[:2])})
     finally:
         shutil.rmtree(root, ignore_errors=True)
-    return {"evaluations": evals, "violations": violations, "disagreements": []}
+    return {"evaluations": evals, "violations": violations, "disagreements": [], "distinct": len(seen)}
